@@ -166,16 +166,19 @@ def preCheck (s : GateState) (p : PacketSummary) : Option Reason :=
   else if p.version ≠ s.version then some .unexpectedVersion
   else none
 
+/-- a long-header part: the parse/version checks of `handleOnePacket`, then `handleLongHeaderPacket` -/
+def gateLong (s : GateState) (p : PacketSummary) : GateState × Action :=
+  match preCheck s p with
+  | some r => (s, .drop r)
+  | none => handleLong s p
+
 /-- one packet: the body of the loop in `handleOnePacket` (the coalescing checks are in `gateParts`).
 Not modelled: the stateless-reset test on undecryptable short-header packets (C17). -/
 def gate (s : GateState) (p : PacketSummary) : GateState × Action :=
   match p.kind with
   | .vn => handleVN s p
   | .short => unpack s p false
-  | _ =>
-    match preCheck s p with
-    | some r => (s, .drop r)
-    | none => handleLong s p
+  | _ => gateLong s p
 
 /-- does the loop of `handleOnePacket` end after this part: a Version Negotiation packet is the whole
 datagram, a short-header packet is always last, the parse/version checks `break`, an error returns -/
@@ -190,11 +193,11 @@ def gateParts (s : GateState) (last : Option CID) : List PacketSummary → GateS
     if last.isSome ∧ ¬ p.destConnIDParseOK then (s, .drop .headerParseError :: rest.map fun _ => .notReached)
     else if last.isSome ∧ last ≠ some p.destConnID then (s, .drop .unknownConnectionID :: rest.map fun _ => .notReached)
     else
-      let (s', a) := gate s p
-      if stopsAfter s p a then (s', a :: rest.map fun _ => .notReached)
+      let r := gate s p
+      if stopsAfter s p r.2 then (r.1, r.2 :: rest.map fun _ => .notReached)
       else
-        let (s'', as) := gateParts s' (some p.destConnID) rest
-        (s'', a :: as)
+        let t := gateParts r.1 (some p.destConnID) rest
+        (t.1, r.2 :: t.2)
 
 /-- `handleOnePacket` on one datagram whose parts are `ps` -/
 def gateDatagram (s : GateState) (ps : List PacketSummary) : GateState × List Action :=
@@ -204,8 +207,16 @@ def gateDatagram (s : GateState) (ps : List PacketSummary) : GateState × List A
 def runPackets (s : GateState) : List PacketSummary → GateState × List Action
   | [] => (s, [])
   | p :: ps =>
-    let (s', a) := gate s p
-    let (s'', as) := runPackets s' ps
-    (s'', a :: as)
+    let r := gate s p
+    let t := runPackets r.1 ps
+    (t.1, r.2 :: t.2)
+
+/-- run a sequence of datagrams; the actions of all parts in order -/
+def runDatagrams (s : GateState) : List (List PacketSummary) → GateState × List Action
+  | [] => (s, [])
+  | d :: ds =>
+    let r := gateDatagram s d
+    let t := runDatagrams r.1 ds
+    (t.1, r.2 ++ t.2)
 
 end Uquic.Model.Handshake
